@@ -467,3 +467,241 @@ def check_order_events(ctx, rep, rule='O-consumers'):
                'order_events must swap result_events[i-1], result_events[i] exactly when result_events[i-1] < result_events[i] '
                '(later-before-earlier in the reversed order); test=%s, swaps=%d' % (ltc, len(swaps)), loc=b.loc(b.j['line_lo']), reason='table-row')
     rep.floor(rule, 'bubble-sort comparison outcomes', len(seen), 2)
+
+
+# ------------------------------------------------------------ O-segment-oracle (decision list of compare_segments)
+
+def _seg_atom(v, role):
+    """structured atom of a condition / returned argument of compare_segments; role maps se1_l/se2_l -> OLD/NEW"""
+    x = strip_upd(v)
+    k = x[0]
+    if sym.is_const(x):
+        return ('const', x[1])
+    if k == 'c' and isinstance(x[1], tuple) and x[1][0] == 'float':
+        return ('const', float(x[1][1]))
+    if k == 'op' and x[1] == 'not':
+        return ('not', _seg_atom(x[2], role))
+    if k == 'op' and len(x) == 4:
+        return ('op', x[1], _seg_atom(x[2], role), _seg_atom(x[3], role))
+    if k == 'pcall' and x[1].endswith('orient2d'):
+        pts = tuple(_seg_point(q, role) for q in x[2])
+        return ('orient', pts)
+    if k == 'pcall' and x[1] == ISBELOW:
+        return ('is_below', _seg_ent(x[2][0], role), _seg_point(x[2][1], role))
+    if k == 'discr':
+        inner = strip_upd(x[1])
+        if inner[0] in ('pcall', 'call') and inner[1].endswith('segment_intersection::intersection'):
+            return ('inter_kind', tuple(_seg_point(q, role) for q in inner[2]))
+        return ('unknown', show(noepoch(x))[:60])
+    if k == 'field':
+        if x[2] == 'is_subject' or x[2] == 'contour_id':
+            base = strip_upd(x[1])
+            if base[0] == 'deref':
+                return (x[2], _seg_ent(base[1], role))
+        if x[2] in ('x', 'y'):
+            p = _seg_point(x[1], role)
+            if p[0] != '?':
+                return ('coord', p, x[2])
+        if x[2] == 'point':
+            p = _seg_point(x, role)
+            if p[0] != '?':
+                return ('point', p)
+        if str(x[2]) == '0' and strip_upd(x[1])[0] == 'variant' and strip_upd(x[1])[2] == 'Point':
+            return ('inter_point',)
+    return ('unknown', show(noepoch(x))[:60])
+
+
+def _seg_ent(v, role):
+    e = obj_root(v, {})
+    for a, b in role.items():
+        e = e.replace(a, b)
+    return e.replace('OLD.other_event', 'OLDR').replace('NEW.other_event', 'NEWR')
+
+
+def _seg_point(v, role):
+    x = strip_upd(v)
+    if x[0] == 'agg' and x[5].endswith('Coord') and len(x[4]) == 2:
+        a = strip_upd(x[4][0])
+        if a[0] == 'field' and a[2] == 'x':
+            return _seg_point(a[1], role)
+    if x[0] == 'field' and x[2] == 'point':
+        base = strip_upd(x[1])
+        if base[0] == 'deref':
+            return _seg_ent(base[1], role)
+    if x[0] == 'field' and str(x[2]) == '0' and strip_upd(x[1])[0] == 'variant' and strip_upd(x[1])[2] == 'Point':
+        return 'INTER'
+    return '?' + show(noepoch(x))[:30]
+
+
+def _seg_eval(at, val):
+    k = at[0]
+    if k == 'const':
+        return at[1]
+    if k == 'not':
+        return not _seg_eval(at[1], val)
+    if k == 'orient':
+        pts = at[1]
+        if pts == ('OLD', 'OLDR', 'NEW'):
+            return float(val['sl'])
+        if pts == ('OLD', 'OLDR', 'NEWR'):
+            return float(val['sr'])
+        raise ValueError('orientation of %s' % (pts,))
+    if k == 'is_below':
+        if at[1:] == ('OLD', 'NEWR'):
+            return val['isbelow']
+        raise ValueError('is_below%s' % (at[1:],))
+    if k == 'inter_kind':
+        if at[1] == ('OLD', 'OLDR', 'NEW', 'NEWR'):
+            return val['ik']
+        raise ValueError('intersection%s' % (at[1],))
+    if k == 'is_subject':
+        return val['old_subj'] if at[1] == 'OLD' else (val['old_subj'] == val['same_subj'])
+    if k == 'op':
+        op, a, b = at[1], at[2], at[3]
+        # comparisons of two points / coordinates / ids are atoms of their own
+        if a[0] == 'point' and b[0] == 'point' and op in ('eq', 'ne'):
+            names = {a[1], b[1]}
+            if names == {'OLD', 'NEW'}:
+                r = val['lp_eq']
+            else:
+                raise ValueError('point comparison %s' % sorted(names))
+            return r if op == 'eq' else not r
+        if (a[0] == 'inter_point' and b[0] == 'point') or (b[0] == 'inter_point' and a[0] == 'point'):
+            other = b if a[0] == 'inter_point' else a
+            if other[1] != 'NEW':
+                raise ValueError('intersection point compared with %s' % other[1])
+            return val['p_eq_newl'] if op == 'eq' else not val['p_eq_newl']
+        if a[0] == 'coord' and b[0] == 'coord' and a[2] == b[2]:
+            pair = (a[1], b[1])
+            if set(pair) != {'OLD', 'NEW'}:
+                raise ValueError('coordinate comparison %s' % (pair,))
+            if a[2] == 'x' and op in ('eq', 'ne'):
+                return val['x_eq'] if op == 'eq' else not val['x_eq']
+            if a[2] == 'y' and op in ('lt', 'gt'):
+                old_lt_new = val['y_lt']
+                first_old = pair[0] == 'OLD'
+                if op == 'lt':
+                    return old_lt_new if first_old else (not old_lt_new and not val['lp_eq'])
+                return (not old_lt_new and not val['lp_eq']) if first_old else old_lt_new
+            raise ValueError('coordinate comparison %s %s' % (a[2], op))
+        if a[0] == 'contour_id' and b[0] == 'contour_id':
+            first_old = a[1] == 'OLD'
+            if op == 'lt':
+                return val['cid_lt'] if first_old else not val['cid_lt']
+            raise ValueError('contour id comparison %s' % op)
+        if a[0] == 'is_subject' and b[0] == 'is_subject' and op in ('eq', 'ne'):
+            return val['same_subj'] if op == 'eq' else not val['same_subj']
+        x, y = _seg_eval(a, val), _seg_eval(b, val)
+        return {'eq': x == y, 'ne': x != y, 'lt': x < y, 'gt': x > y, 'le': x <= y, 'ge': x >= y,
+                'bitor': bool(x) or bool(y), 'bitand': bool(x) and bool(y)}[op]
+    raise ValueError('atom %r' % (at,))
+
+
+def _seg_oracle(v):
+    """the documented decision list: argument of less_if for (older, newer) segment"""
+    sl, sr = v['sl'], v['sr']
+    if sl != 0 or sr != 0:
+        if v['lp_eq']:
+            return v['isbelow']
+        if v['x_eq']:
+            return v['y_lt']
+        if (sl > 0) == (sr > 0):
+            return sl > 0
+        if sl == 0:
+            return sr > 0
+        if v['ik'] == 0:
+            return sl > 0
+        if v['ik'] == 1:
+            return sr > 0 if v['p_eq_newl'] else sl > 0
+    if v['same_subj']:
+        if v['lp_eq']:
+            return v['cid_lt']
+        return True
+    return v['old_subj']
+
+
+def check_segment_oracle(ctx, rep, rule='O-segment-oracle'):
+    b, ps = rep.explore(ctx, CS, rule)
+    if b is None:
+        return
+    rows = {True: [], False: []}
+    try:
+        for p in ps:
+            if p.end != 'return':
+                continue
+            r = strip_upd(p.ret)
+            if r[0] != 'pcall' or r[1] not in (LESS_IF, LESS_IF_INV):
+                continue
+            before = None
+            conds = []
+            after = False
+            for (v, cc) in p.conds:
+                s = show(noepoch(v))
+                x = strip_upd(v)
+                if x[0] == 'op' and x[1] in ('gt', 'lt') and 'point' not in s and 'orient2d' not in s and 'contour_id' not in s and 'se1_l' in s and 'se2_l' in s:
+                    a_is_1 = 'se1_l' in show(x[2])
+                    before = cc[1] if (x[1] == 'gt') == a_is_1 else (not cc[1])
+                    after = True
+                    continue
+                if after:
+                    conds.append((v, cc))
+            if before is None:
+                continue
+            role = {'se1_l': 'OLD', 'se2_l': 'NEW'} if before else {'se2_l': 'OLD', 'se1_l': 'NEW'}
+            crow = []
+            for (v, cc) in conds:
+                x = strip_upd(v)
+                if x[0] == 'discr':
+                    from rules.tables import weak_link
+                    if weak_link(strip_upd(x[1]), {}):
+                        continue      # presence of the right events (asserted before)
+                crow.append((_seg_atom(v, role), cc))
+            rows[before].append((crow, _seg_atom(r[2][0], role)))
+    except ValueError as e:
+        rep.ob(rule, 'tabulable', False, 'cannot model compare_segments: %s' % e, loc=b.loc(b.j['line_lo']), reason='cannot-tabulate')
+        return
+    bad = []
+    n = 0
+    try:
+        for arm in (True, False):
+            for sl, sr, ik in itertools.product((-1, 0, 1), (-1, 0, 1), (0, 1, 2)):
+                for lp_eq, x_eq, y_lt, p_eq, same, olds, cid, isb in itertools.product((False, True), repeat=8):
+                    if lp_eq and (not x_eq or y_lt or sl != 0):
+                        continue       # geometrically impossible
+                    v = {'sl': sl, 'sr': sr, 'ik': ik, 'lp_eq': lp_eq, 'x_eq': x_eq, 'y_lt': y_lt, 'p_eq_newl': p_eq, 'same_subj': same,
+                         'old_subj': olds, 'cid_lt': cid, 'isbelow': isb}
+                    if (sl != 0 or sr != 0) and not lp_eq and not x_eq and (sl > 0) != (sr > 0) and sl != 0 and ik == 2:
+                        pass           # overlap reported for non-collinear input: falls to the collinear logic (as documented)
+                    outs = set()
+                    for (conds, ret) in rows[arm]:
+                        ok = True
+                        for (at, cc) in conds:
+                            val = _seg_eval(at, v)
+                            want = cc[1]
+                            if cc[0] == 'eq':
+                                if isinstance(want, bool) or isinstance(val, bool):
+                                    ok = bool(val) == bool(want)
+                                else:
+                                    ok = val == want
+                            else:
+                                ok = val not in cc[1]
+                            if not ok:
+                                break
+                        if ok:
+                            outs.add(bool(_seg_eval(ret, v)))
+                    n += 1
+                    exp = _seg_oracle(v)
+                    if outs != {exp}:
+                        bad.append((arm, dict(v), sorted(outs), exp))
+    except ValueError as e:
+        rep.ob(rule, 'tabulable', False, 'cannot evaluate compare_segments over the sign atoms: %s' % e, loc=b.loc(b.j['line_lo']),
+               reason='cannot-tabulate')
+        return
+    rep.rows_compared += n
+    for (arm, v, outs, exp) in bad[:5]:
+        key = ','.join('%s=%s' % (k, int(x) if isinstance(x, bool) else x) for k, x in sorted(v.items()))
+        rep.ob(rule, 'row:%s:%s' % ('older-first' if arm else 'swapped', key), False,
+               'compare_segments decides less_if(%s) for (older, newer) in configuration %s; the documented decision list gives %s'
+               % (outs, key, exp), loc=b.loc(b.j['line_lo']), reason='table-row', expected=exp, found=outs)
+    rep.ob(rule, 'decision-list', not bad, '%d of %d configurations deviate from the documented decision list' % (len(bad), n), reason='table-row')
+    rep.floor(rule, 'configurations evaluated', n, 7000)
